@@ -38,3 +38,17 @@ CLAIMED['C04'] = dict(
           'models of sa/models.py, the folded transition table (checked against the spec by C10). The codecs themselves are '
           'outside this property.'),
     technique='finite-domain abstract interpretation with exhaustive history exploration (typestate of the scope stack)')
+
+CLAIMED['C09'] = dict(
+    category='other',
+    text=('Acceptance relation: transition table = spec relation (81 pairs) and, from every writer state reachable by call '
+          'histories its own validator accepts (exhaustive K1 exploration), each public call is accepted iff the id it would '
+          'write may follow the previous one, rejecting with DiffXSectionOrderError. Atomic rejection: typestate rule '
+          'CLEAN->DIRTY at the first stream write / stack mutation / attribute store; every public call is executed from '
+          'every reachable state with caller-controlled abstract arguments (one fully untyped argument at a time) and no '
+          'raise source (explicit raise or sink-table operation on caller data) may be reached DIRTY. Append-only: every '
+          'operation on the output stream is write(). Header sink: every option value reaching a header is None, in a '
+          'folded choice set, a computed length or regex-validated.'),
+    note=('Sound relative to the sink table (sa/calls.py) and the one-abstract-argument-at-a-time argument abstraction; '
+          'utility functions of utils/text.py are summarised per call signature. Does not decide the bytes written (C02).'),
+    technique='typestate (validate-before-effect) over path-sensitive abstract interpretation + finite relation comparison + who-may-call query')
